@@ -106,9 +106,16 @@ class LoopMixin:
                 return smt.simp(Val.int(smt.int_of(src[1]) + k * smt.int_of(src[2])))
             raise Unsupported('loop source')
 
+        xs_val = None
+        if src is not None and src[0] in ('seq', 'rseq'):
+            xs_val = self.alloc(builtin_class('tuple'))
+            self.set_seq(xs_val, src[1])
+
         def env_with(k):
             env = dict(self.frame_env(fr))
             env[kname] = smt.simp(Val.int(k))
+            if xs_val is not None:
+                env['xs'] = xs_val
             return env
 
         def inv_formula(k):
